@@ -1,4 +1,6 @@
 import PhpVerif.Model.Term
+import PhpVerif.Lemmas.Term
+import PhpVerif.Lemmas.YY
 import PhpVerif.Gen.Terms7
 import PhpVerif.Gen.Terms5
 import PhpVerif.Gen.Tables7
@@ -27,5 +29,95 @@ theorem all_paths_translated7 : untranslated Gen.terms7 = [] := by decide +kerne
 theorem all_paths_translated5 : untranslated Gen.terms5 = [] := by decide +kernel
 
 example : 500 < Gen.terms7.length ∧ 500 < Gen.terms5.length := by decide +kernel
+
+/-! ### No action can invent a token (all tables, all action terms, all runs) -/
+
+theorem withObjs_bnd {n : Nat} {c0 : ECtx} (hc0 : CtxBnd n c0) (uid0 : Nat) (os : List ObjLit) :
+    CtxBnd n { c0 with objs := evalObjs c0 uid0 os [] } :=
+  ⟨hc0.envs, BndL_evalObjs hc0 uid0 os [] (BndL_nil n), hc0.cur⟩
+
+theorem runMuts_bnd {n : Nat} (toks : Array TokInfo) (combs : List PosComb) (cur : Option Nat) (uid0 : Nat) (objs : List ObjLit)
+    (hcur : ∀ i, cur = some i → i < n) : ∀ (ms : List TMut) (envs : List (List V)),
+    (∀ env ∈ envs, BndL n env) → ∀ env ∈ runMuts toks combs cur uid0 objs ms envs, BndL n env
+  | [], envs, h => by simpa [runMuts] using h
+  | m :: ms, envs, h => by
+    simp only [runMuts]
+    apply runMuts_bnd toks combs cur uid0 objs hcur ms
+    intro env he
+    rcases List.mem_append.mp he with he | he
+    · exact h env he
+    · simp only [List.mem_singleton] at he
+      subst he
+      have hc0 : CtxBnd n (ECtx.mk toks combs cur envs []) := ⟨h, BndL_nil n, hcur⟩
+      have hc := withObjs_bnd hc0 uid0 objs
+      have hlast := BndL_lastEnv h
+      split
+      · exact hlast
+      · exact BndL_setNth (Bnd_setPath (Bnd_evalTm hc m.val) _ _ _ (Bnd_getArg hlast _)) _ hlast
+
+theorem pathCtx_bnd {n : Nat} (toks : Array TokInfo) (combs : List PosComb) (p : TPath) (args : List V) (cur : Option Nat) (uid0 : Nat)
+    (hargs : BndL n args) (hcur : ∀ i, cur = some i → i < n) : CtxBnd n (pathCtx toks combs p args cur uid0) := by
+  have henvs : ∀ env ∈ runMuts toks combs cur uid0 p.objs p.muts [args], BndL n env :=
+    runMuts_bnd toks combs cur uid0 p.objs hcur p.muts [args] (by
+      intro env he
+      simp only [List.mem_singleton] at he
+      subst he
+      exact hargs)
+  exact ⟨henvs, BndL_evalObjs ⟨henvs, BndL_nil n, hcur⟩ uid0 p.objs [] (BndL_nil n), hcur⟩
+
+/-- the values the whole-parser model manipulates hold only tokens the scanner has delivered so far -/
+theorem treeSem_inv (toks : Array TokInfo) (combs : List PosComb) (tbl : PathTable) :
+    SemInv (treeSem toks combs tbl) (fun n v => Bnd n v) (fun n st => ∀ r, st.root = some r → Bnd n r) where
+  monoP := fun _ _ _ h hv => Bnd_mono h hv
+  monoQ := fun _ _ _ h hq r hr => Bnd_mono h (hq r hr)
+  zero := fun n => Bnd_nil n
+  tok := fun i => Bnd_tok (Nat.lt_succ_self i)
+  reduce := by
+    intro n aux prod args dflt v aux' hargs hdfl hq hred
+    simp only [treeSem, reduceTree] at hred
+    split at hred
+    · cases hred
+      exact ⟨hdfl, hq⟩
+    · split at hred
+      · cases hred
+      · rename_i p _
+        split at hred
+        · cases hred
+        · cases hred
+          have hcur : ∀ i, (if (n == 0) = true then none else some (n - 1)) = some i → i < n := by
+            intro i hi
+            split at hi
+            · cases hi
+            · rename_i hn
+              cases hi
+              have : n ≠ 0 := by simpa using hn
+              omega
+          have hc := pathCtx_bnd toks combs p args _ aux.uid (BndL_of_mem hargs) hcur
+          simp only [runPath]
+          refine ⟨?_, ?_⟩
+          · cases hret : p.ret with
+            | none => simpa [Option.map, hret] using hdfl
+            | some t => simpa [Option.map, hret] using Bnd_evalTm hc t
+          · intro r hr
+            cases hroot : p.root with
+            | none =>
+              simp only [hroot, Option.map, HOrElse.hOrElse, OrElse.orElse, Option.orElse] at hr
+              exact hq r hr
+            | some t =>
+              simp only [hroot, Option.map, HOrElse.hOrElse, OrElse.orElse, Option.orElse] at hr
+              cases hr
+              exact Bnd_evalTm hc t
+
+/-- C02 / C07, token level, every run: whatever the LALR tables and whatever the action terms, every token
+    in the tree the parser model returns — after an accepted parse or after any amount of error
+    recovery — is one of the tokens the scanner delivered to it (`i < s.pos`, the number of `Lex`
+    calls): recovery and actions never invent a token. -/
+theorem parse_no_invention (t : YYTab) (combs : List PosComb) (tbl : PathTable) (toks : Array TokInfo)
+    (c : Option Nat) (s : YYSt V TreeSt) (h : parseModel t combs tbl toks = .ok (c, s)) (r : V) (hr : s.aux.root = some r) :
+    ∀ i ∈ r.toks, i < s.pos := by
+  have hs := treeSem_inv toks combs tbl
+  have hinit := StInv_init hs ({} : TreeSt) (by intro r hr; cases hr)
+  have := yyRun_inv hs t _ _ _ c s hinit h
+  exact this.2.2.1 r hr
 
 end PhpVerif.Parser
